@@ -1048,7 +1048,8 @@ func autoTableLayout(context *layoutContext, box_ Box, containingBlock bo.Point)
 				saw += addedWidths[i]
 			}
 			if saw != 0 {
-				availableRatio = (assignableWidth - sl) / saw
+				// In [0, 1] by construction, up to rounding errors
+				availableRatio = pr.Min(1, pr.Max(0, (assignableWidth-sl)/saw))
 			}
 			cw := make([]pr.Float, len(tmp.grid))
 			for i := range tmp.grid {
@@ -1181,7 +1182,7 @@ func distributeExcessWidth(context *layoutContext, grid [][]bo.Box, excessWidth 
 			differences    = make([]pr.Float, L)
 		)
 		for i := 0; i < L; i++ {
-			v := pr.Max(0, columnMaxContentWidths[i]-currentWidths[i])
+			v := pr.Max(0, columnMaxContentWidths[columns[i].i]-currentWidths[i])
 			differences[i] = v
 			sumDifferences += v
 		}
@@ -1231,7 +1232,7 @@ func distributeExcessWidth(context *layoutContext, grid [][]bo.Box, excessWidth 
 			differences    = make([]pr.Float, L)
 		)
 		for i := 0; i < L; i++ {
-			v := pr.Max(0, columnMaxContentWidths[i]-currentWidths[i])
+			v := pr.Max(0, columnMaxContentWidths[columns[i].i]-currentWidths[i])
 			differences[i] = v
 			sumDifferences += v
 		}
